@@ -69,11 +69,11 @@ def template(stmts, feats):
             "enums": [], "unions": [], "globals": [], "funcs": funcs, "features": feats, "excluded": {}}
 
 
-def place(exprs):
+def place(exprs, no_let=False):
     """Statements using (expr, type) in the positions the property names."""
     out = []
     for i, (e, t) in enumerate(exprs):
-        pos = i % 4
+        pos = i % 4 if not no_let else 1 + i % 3
         bare = e + ("bare",) if e[0] == "bin" and len(e) == 5 else (e + ("bare",) if e[0] == "un" and len(e) == 4 else e)
         if pos == 0:
             out.append(("let", "r%d" % i, t, bare, False))
@@ -130,6 +130,11 @@ def random_case(draw, gates, maxdepth):
     for _ in range(n):
         t = draw(st.sampled_from(["int", "bool"]))
         exprs.append((draw(expr_tree(t, draw(st.integers(1, maxdepth)), gates)), t))
+    # size ramp: the same expressions repeated as hundreds / thousands of statements of one function (the nesting limit
+    # of 1000 is per expression, so the number of statements must not matter to either spelling)
+    rep = draw(st.sampled_from([1] * 12 + [300, 1100, 2500]))
+    if rep > 1:
+        return template(place(exprs[:2] * rep, no_let=True), {"random": 1, "repeated": rep})
     return template(place(exprs), {"random": 1})
 
 
@@ -317,6 +322,8 @@ def run_case(ctx, prog, ev):
         ev.cls("has_bare_unary")
     if postfix:
         ev.cls("has_postfix_operand")
+    if prog["features"].get("repeated"):
+        ev.cls("repeated_%d_times" % prog["features"]["repeated"])
     if v == "inconclusive":
         ev.inconclusive += 1
     if v == "same" and chain and len(ev.samples) < 2 and ev.evaluations % 9 == 1:
